@@ -88,6 +88,7 @@ func init() {
 		a := c.core()
 		if a.ok {
 			c.rulesC14(a, c.lockAnalysis())
+			c.rulesC14chk(a)
 		}
 	})
 }
@@ -113,6 +114,7 @@ func init() {
 		a := c.core()
 		if a.ok {
 			c.rulesC13(a, c.lockAnalysis())
+			c.rulesC13grace()
 		}
 	})
 }
@@ -184,6 +186,7 @@ func init() {
 		Trusted:     commonTrusted,
 	}, func(c *Ctx) {
 		c.rulesC17()
+		c.rulesC17ord()
 	})
 }
 
@@ -194,6 +197,8 @@ func init() {
 		Trusted:     commonTrusted,
 	}, func(c *Ctx) {
 		c.rulesC18()
+		c.rulesC18dflt()
+		c.rulesC18net()
 	})
 }
 
@@ -214,6 +219,7 @@ func init() {
 		Trusted:     commonTrusted,
 	}, func(c *Ctx) {
 		c.rulesC20()
+		c.rulesC20deep()
 	})
 }
 
@@ -224,6 +230,7 @@ func init() {
 		Trusted:     commonTrusted,
 	}, func(c *Ctx) {
 		c.rulesC15()
+		c.rulesC15key()
 	})
 }
 
@@ -235,5 +242,6 @@ func init() {
 	}, func(c *Ctx) {
 		c.rulesC16()
 		c.rulesC16buf()
+		c.rulesC16back()
 	})
 }
